@@ -1,3 +1,5 @@
 import UmapProps.C01
 import UmapProps.C02
 import UmapProps.C19
+import UmapProps.C20
+import UmapProps.C10
